@@ -146,6 +146,18 @@ func runC17(c *Ctx) {
 			}
 			call := isMethod(ast.Unparen(cond), "IsEqual")
 			if call == nil {
+				// the scan written as slices.ContainsFunc(list, func(x T) bool { return c.IsEqual(dst, …) })
+				if cf, isCall := ast.Unparen(cond).(*ast.CallExpr); isCall && len(cf.Args) == 2 {
+					if fn := Callee(info, cf); fn != nil && fn.Pkg() != nil && fn.Pkg().Path() == "slices" && fn.Name() == "ContainsFunc" {
+						if lit, isLit := cf.Args[1].(*ast.FuncLit); isLit && len(lit.Body.List) == 1 {
+							if ret, isRet := lit.Body.List[0].(*ast.ReturnStmt); isRet && len(ret.Results) == 1 {
+								call = isMethod(ast.Unparen(ret.Results[0]), "IsEqual")
+							}
+						}
+					}
+				}
+			}
+			if call == nil {
 				continue
 			}
 			n++
@@ -266,7 +278,21 @@ func runC17(c *Ctx) {
 			}
 			return true
 		})
-		same := inner != nil && pend != nil && inUD(deleteFn, objOf(info, inner.X)) == pend
+		var scanned ast.Expr
+		if inner != nil {
+			scanned = inner.X
+		} else {
+			// scan written as slices.ContainsFunc(list, …)
+			ast.Inspect(outerDelete.Body, func(n ast.Node) bool {
+				if call, ok := n.(*ast.CallExpr); ok && scanned == nil && len(call.Args) == 2 {
+					if fn := Callee(info, call); fn != nil && fn.Pkg() != nil && fn.Pkg().Path() == "slices" && fn.Name() == "ContainsFunc" {
+						scanned = call.Args[0]
+					}
+				}
+				return true
+			})
+		}
+		same := scanned != nil && pend != nil && inUD(deleteFn, objOf(info, scanned)) == pend
 		c.Check(same, "C17-R2", "updateDestination:delete phase scans the same pending list as the create phase", outerDelete.Pos(), "same list", "the delete phase compares existing comments with a different pending list than the create phase")
 		// pending list from makeComments(s, showDuplicates)
 		fromMake := false
@@ -670,6 +696,17 @@ func c17ErrorsEndTheRun(c *Ctx, R string) {
 					}
 				case *ast.BranchStmt:
 					why = "the branch leaves with `" + last.Tok.String() + "`"
+					// a `return err` of an expanded helper: the error is handed to the caller's variable
+					// and the labelled block that stands for the helper's body is left
+					if last.Tok == token.BREAK && last.Label != nil && len(ifs.Body.List) >= 2 {
+						if as, isAs := ifs.Body.List[len(ifs.Body.List)-2].(*ast.AssignStmt); isAs {
+							for _, r := range as.Rhs {
+								if objOf(info, r) == errObj {
+									why = ""
+								}
+							}
+						}
+					}
 				default:
 					// logging only and going on is the documented behaviour for a few best-effort calls:
 					// those sit outside loops; inside a loop the collection goes on with a hole
